@@ -89,3 +89,83 @@ Theorem C05_unsorted_methods_keep_order : forall (T : Type) (K : kops T) (u u' :
   relabel (k_ltb K) (k_eqb K) u d false = Ok (u', d') -> heights d' = heights d.
 Proof. exact unsorted_methods_keep_order. Qed.
 Print Assumptions C05_unsorted_methods_keep_order.
+
+(* ---- Ward on the two float carriers of the correspondence check.
+   The correctly rounded IEEE square root preserves `<=` (as partial_cmp sees it)
+   between any two values whose roots are not NaN (Proofs/FloatOrder.v: Bsqrt_le
+   through Flocq's Bsqrt_correct). Hence: a dendrogram returned by ANY entry point
+   with ANY of the five monotone methods has no inversion unless it contains a NaN
+   height - and a NaN height can only be the root of a negative squared Ward height,
+   which is C12's business (finite, non-negative outputs). No other hypothesis. ---- *)
+Require Import KV.Run.F64 KV.Run.F32 KV.Proofs.FloatOrder KV.Model.Primitive KV.Model.Chain KV.Model.Generic KV.Model.Mst.
+From Flocq Require Import IEEE754.BinarySingleNaN.
+
+Theorem C05_sqrt_le_f64 : forall x y : PrimFloat.float,
+  PrimFloat.is_nan (PrimFloat.sqrt x) = false -> PrimFloat.is_nan (PrimFloat.sqrt y) = false ->
+  PrimFloat.ltb x y = true \/ PrimFloat.eqb x y = true ->
+  PrimFloat.ltb (PrimFloat.sqrt x) (PrimFloat.sqrt y) = true
+  \/ (PrimFloat.ltb (PrimFloat.sqrt x) (PrimFloat.sqrt y) = false /\ PrimFloat.eqb (PrimFloat.sqrt x) (PrimFloat.sqrt y) = true).
+Proof. exact f64_sqrt_le. Qed.
+Print Assumptions C05_sqrt_le_f64.
+
+Section WardFloat.
+Variable T : Type.
+Variable F : fops T.
+Variable p : profile.
+Variable nan : T -> bool.
+Hypothesis sqrt_le : forall x y, nan (f_sqrt F x) = false -> nan (f_sqrt F y) = false ->
+  f_ltb F x y = true \/ f_eqb F x y = true ->
+  f_ltb F (f_sqrt F x) (f_sqrt F y) = true \/ (f_ltb F (f_sqrt F x) (f_sqrt F y) = false /\ f_eqb F (f_sqrt F x) (f_sqrt F y) = true).
+
+Lemma ward_rt_on : forall x y, nan (k_rt (kops_of F Ward) x) = false -> nan (k_rt (kops_of F Ward) y) = false ->
+  le_t (kops_of F Ward) x y -> le_t (kops_of F Ward) (k_rt (kops_of F Ward) x) (k_rt (kops_of F Ward) y).
+Proof.
+  cbn [kops_of k_rt on_squares]. intros x y Nx Ny Hxy. unfold le_t, pcmp in *. cbn [kops_of k_ltb k_eqb] in *.
+  assert (H : f_ltb F x y = true \/ f_eqb F x y = true).
+  { destruct (f_ltb F x y); [left; reflexivity|]. destruct (f_eqb F x y); [right; reflexivity|].
+    destruct (f_ltb F y x); destruct Hxy; discriminate. }
+  destruct (sqrt_le x y Nx Ny H) as [E|[E1 E2]]; [rewrite E; left; reflexivity|rewrite E1, E2; right; reflexivity].
+Qed.
+
+Theorem no_inversions_ward_nan_free (a : algo) s d m n s' d' m' :
+  run_with F p a Ward s d m n = Ok (s', d', m') ->
+  Forall (fun h => nan h = false) (heights d') -> Sorted (fle F) (heights d').
+Proof.
+  intros H HP.
+  destruct a; cbn [run_with] in H.
+  - unfold linkage_with in H. cbn [chain_capable] in H.
+    apply (sorted_any F Ward). exact (@nnchain_monotone_on T (kops_of F Ward) p _ ward_rt_on Ward s d m n s' d' m' eq_refl H HP).
+  - apply (sorted_any F Single). exact (@mst_monotone T (kops_of F Single) p s d m n s' d' m' H).
+  - apply (sorted_any F Ward). exact (@nnchain_monotone_on T (kops_of F Ward) p _ ward_rt_on Ward s d m n s' d' m' eq_refl H HP).
+  - apply (sorted_any F Ward). exact (@generic_monotone_on T (kops_of F Ward) p _ ward_rt_on Ward s d m n s' d' m' eq_refl H HP).
+  - apply (sorted_any F Ward). exact (@primitive_monotone_on T (kops_of F Ward) p _ ward_rt_on Ward s d m n s' d' m' eq_refl H HP).
+Qed.
+End WardFloat.
+
+Theorem C05_no_inversions_5_f64 : forall (p : profile) (a : algo) (meth : method) s d m n s' d' m',
+  meth = Single \/ meth = Complete \/ meth = Average \/ meth = Weighted \/ meth = Ward ->
+  run_with F64 p a meth s d m n = Ok (s', d', m') ->
+  Forall (fun h => PrimFloat.is_nan h = false) (heights d') -> Sorted (fle F64) (heights d').
+Proof.
+  intros p a meth s d m n s' d' m' [H|[H|[H|[H|H]]]] Hrun HP.
+  - apply (@C05_no_inversions_4 _ F64 p a meth s d m n s' d' m'); [left; exact H|exact Hrun].
+  - apply (@C05_no_inversions_4 _ F64 p a meth s d m n s' d' m'); [right; left; exact H|exact Hrun].
+  - apply (@C05_no_inversions_4 _ F64 p a meth s d m n s' d' m'); [right; right; left; exact H|exact Hrun].
+  - apply (@C05_no_inversions_4 _ F64 p a meth s d m n s' d' m'); [right; right; right; exact H|exact Hrun].
+  - subst meth. exact (@no_inversions_ward_nan_free _ F64 p PrimFloat.is_nan f64_sqrt_le a s d m n s' d' m' Hrun HP).
+Qed.
+Print Assumptions C05_no_inversions_5_f64.
+
+Theorem C05_no_inversions_5_f32 : forall (p : profile) (a : algo) (meth : method) s d m n s' d' m',
+  meth = Single \/ meth = Complete \/ meth = Average \/ meth = Weighted \/ meth = Ward ->
+  run_with F32 p a meth s d m n = Ok (s', d', m') ->
+  Forall (fun h : f32 => is_nan h = false) (heights d') -> Sorted (fle F32) (heights d').
+Proof.
+  intros p a meth s d m n s' d' m' [H|[H|[H|[H|H]]]] Hrun HP.
+  - apply (@C05_no_inversions_4 _ F32 p a meth s d m n s' d' m'); [left; exact H|exact Hrun].
+  - apply (@C05_no_inversions_4 _ F32 p a meth s d m n s' d' m'); [right; left; exact H|exact Hrun].
+  - apply (@C05_no_inversions_4 _ F32 p a meth s d m n s' d' m'); [right; right; left; exact H|exact Hrun].
+  - apply (@C05_no_inversions_4 _ F32 p a meth s d m n s' d' m'); [right; right; right; exact H|exact Hrun].
+  - subst meth. exact (@no_inversions_ward_nan_free _ F32 p (@is_nan 24 128) (@Bsqrt_le 24 128 eq_refl eq_refl) a s d m n s' d' m' Hrun HP).
+Qed.
+Print Assumptions C05_no_inversions_5_f32.
